@@ -144,6 +144,10 @@ FailedConnectKeeps ==
   \/ cur # 0 /\ ~socks[cur].open /\ cur' = 0 /\ UNCHANGED socks
   \/ Has("ReconnectLeaks") /\ route = "shared" /\ cur # 0 /\ socks[cur].open /\ cur' = 0 /\ UNCHANGED socks
 
+\* Connect does not authenticate: the record of an earlier handshake may survive it
+\* (it describes that handshake) or be dropped (the new connection has none)
+NegAfterConnect(returns) == IF returns THEN neg' \in {neg, FALSE} ELSE neg' = neg
+
 \* Connect on a client object: one public call
 Connect(e, x) ==
   /\ CanCall /\ cl = "live" /\ e \in EnvsNew /\ x \in Ctxs
@@ -167,7 +171,8 @@ Connect(e, x) ==
             \/ /\ cur # 0 /\ socks[cur].open                                   \* refusing to reconnect is admissible
                /\ ret' = [call |-> "connect", res |-> "err", by |-> "fast"]
                /\ UNCHANGED <<cur, socks, pend, ctxc, tmo, leak>>
-  /\ UNCHANGED <<how, route, sec, cl, neg, authed>>
+  /\ NegAfterConnect(pend'.op = "none")
+  /\ UNCHANGED <<how, route, sec, cl, authed>>
 
 \* a dial error that is swallowed: Connect says nil and there is no stream
 ConnectSwallow(e, x) ==
@@ -257,8 +262,8 @@ CallEnd ==
   /\ ret' = [call |-> pend.op, res |-> "err",
              by |-> IF ctxc /\ ~CtxIgnored THEN "fast" ELSE "timeout"]
   /\ leak' = IF pend.ph = "hs" /\ Has("LeakOnAuthFailure") THEN leak + 1 ELSE leak
-  /\ IF pend.op = "connect" THEN FailedConnectKeeps ELSE UNCHANGED <<cur, socks>>
-  /\ UNCHANGED <<how, route, sec, cl, neg, authed, ctxc, tmo, ncalls>>
+  /\ IF pend.op = "connect" THEN FailedConnectKeeps /\ NegAfterConnect(TRUE) ELSE UNCHANGED <<cur, socks, neg>>
+  /\ UNCHANGED <<how, route, sec, cl, authed, ctxc, tmo, ncalls>>
 
 CInit ==
   /\ how \in Hows /\ route \in Routes /\ sec \in Secs
